@@ -1,3 +1,4 @@
 import EdzedProps.C01
 import EdzedProps.C09
+import EdzedProps.C14
 import EdzedProps.C20
